@@ -180,9 +180,28 @@ func (e *Engine) traceResSig(f string) []types.Type {
 	return out
 }
 
+// traceFails: ghost counter of the recorded calls whose first result (an
+// error) was non-nil.
+func (c *FuncCtx) traceFails(st *State, f string) string {
+	k := traceKey(f) + "|f"
+	if t, ok := st.heap[k]; ok {
+		return t
+	}
+	name := "T_" + traceIdent(f) + "_fails"
+	c.declOnce(name, "Int")
+	c.noteKeySort(k, "Int")
+	st.heap[k] = name
+	st.assume(app("<=", "0", name))
+	return name
+}
+
 // traceResults records the results of the call just appended.
 func (c *FuncCtx) traceResults(st *State, f string, results []*Val) {
 	rs := c.eng.traceResSig(f)
+	if len(rs) > 0 && len(results) > 0 && c.eng.sortOf(rs[0]) == "Iface" {
+		nf := c.traceFails(st, f)
+		st.heap[traceKey(f)+"|f"] = mkAdd(nf, mkIte(mkEq(app("tag_Iface", results[0].S), "0"), "0", "1"))
+	}
 	n := c.traceN(st, f) // already incremented
 	at := mkSub(n, "1")
 	for i, rt := range rs {
@@ -239,6 +258,12 @@ func (c *FuncCtx) traceHavoc(st *State, f string) {
 		srt := c.eng.sortOf(rt)
 		keep(fmt.Sprintf("%s|r%d", traceKey(f), i), c.traceRes(st, f, i, srt), srt)
 	}
+	if rs := c.eng.traceResSig(f); len(rs) > 0 && c.eng.sortOf(rs[0]) == "Iface" {
+		nf := c.traceFails(st, f)
+		nnf := c.fresh("T_"+traceIdent(f)+"_fails", "Int")
+		st.assume(mkAnd(app("<=", nf, nnf), app("<=", mkSub(nnf, nf), mkSub(nn, n))))
+		st.heap[traceKey(f)+"|f"] = nnf
+	}
 	// the clock moves forward; new records carry times in between
 	clk := c.traceClock(st)
 	nclk := c.fresh("T_clock", "Int")
@@ -269,6 +294,12 @@ func (c *FuncCtx) traceBuiltin(st *State, name string, x *ast.CallExpr) ([]*Val,
 			limitf("ncalls(%s): no traced contract of that name", f)
 		}
 		return []*Val{{T: tInt, S: c.traceN(st, f), Sort: "Int"}}, true
+	case "nfails":
+		f := traceNameOf(x.Args[0])
+		if con := c.eng.spec.Contracts[f]; con == nil || !con.Traced {
+			limitf("nfails(%s): no traced contract of that name", f)
+		}
+		return []*Val{{T: tInt, S: c.traceFails(st, f), Sort: "Int"}}, true
 	case "calltime":
 		f := traceNameOf(x.Args[0])
 		i := c.eval(st, x.Args[1])
